@@ -311,3 +311,75 @@ def tag_lines_AUT(lines):
 
 def achk_line(tags, lines):
     return 'achk\t-\t%s\t%s' % (tags, '\t'.join(hx(l) for l in lines))
+
+
+# TOUGH+: same tags as tag_lines; '1' '2' '3' header of the second / third / fourth ELEM INDEX table (element1, ...);
+# the header block ends at a '=====' line, a table at its '@@@@@' line, the primary table at the '_____' line after a blank
+def tag_lines_TP(lines):
+    n = len(lines)
+    tags = ['?'] * n
+    oda = [i for i, l in enumerate(lines) if l.lstrip().lower().startswith('output data after')]
+    if not oda: return None
+    def kind(line):
+        w = line.split()[:3]
+        if len(w) >= 3 and w[0] == 'ELEM' and w[1] == 'INDEX': return 'primary' if w[2] == 'X1' else 'element'
+        if w == ['ELEM1', 'ELEM2', 'INDEX']: return 'connection'
+        if w == ['ELEMENT', 'SOURCE', 'INDEX']: return 'generation'
+        return None
+    def table(i, end, tag, primary):
+        hw = O.header_words(lines[i])
+        if hw is None: return None
+        nkeys, cols = hw
+        rows, keypos = [], None
+        z = None
+        for q in range(i + 1, end):
+            if rows and ((lines[q].startswith('_____')) if primary else is_at(lines[q])): z = q; break
+            if not rows and is_at(lines[q]): return None
+            r = O.parse_row(lines[q], nkeys, 1, keypos)
+            if r is not None:
+                if keypos is None: keypos = r[4]
+                rows.append(q)
+        if z is None or not rows: return None
+        tags[i] = tag
+        for q in range(i + 1, rows[0]): tags[q] = 'f'
+        rs = set(rows)
+        for q in range(rows[0], rows[-1] + 1): tags[q] = 'r' if q in rs else 'g'
+        for q in range(rows[-1] + 1, z): tags[q] = 'e'
+        tags[z] = 'z'
+        return z
+    pos = 0
+    for k, o in enumerate(oda):
+        end = oda[k + 1] if k + 1 < len(oda) else n
+        tt = next((i for i in range(o + 1, end) if 'total time' in lines[i].lower()), None)
+        if tt is None or tt + 1 >= end: return None
+        for i in range(pos, tt + 1): tags[i] = 'l'
+        tags[tt + 1] = 't'
+        i = tt + 2
+        while i < end and lines[i][1:6] != '=====': tags[i] = 'h'; i += 1
+        if i >= end: return None
+        tags[i] = 's'; i += 1
+        while i < end and not lines[i].strip(): tags[i] = 'b'; i += 1
+        if i < end and len(lines[i].split()) < 4:
+            tags[i] = 'y'; i += 1
+            while i < end and not lines[i].strip(): tags[i] = 'y'; i += 1
+        if i >= end: return None
+        z = table(i, end, 'E', False)
+        if z is None: return None
+        nel, was_primary = 0, False
+        while True:
+            us = z if was_primary else next((q for q in range(z + 1, end) if lines[q].startswith('_____')), None)
+            if us is None or us + 2 >= end: break
+            h = us + 2
+            kd = kind(lines[h])
+            if kd is None: break
+            if kd == 'element':
+                tag = str(nel + 1)
+            else: tag = TABLE_TAG[kd]
+            z2 = table(h, end, tag, kd == 'primary')
+            if z2 is None: break
+            if kd == 'element': nel += 1
+            for p in range(z + 1, h): tags[p] = 'i'
+            z, was_primary = z2, kd == 'primary'
+        for p in range(z + 1, end): tags[p] = 'x'
+        pos = end
+    return ''.join(tags)
